@@ -42,6 +42,15 @@ def run(ctx: Ctx):
   for r in (r1, r2, r3, r4, r6, r7, r8):
     ctx.guard(r)
   from mlmverif.props import c09
+  from mlmverif.props import c13, c16
+  ctx.include('R-C03-9', '"with any number of worker threads ... as a chain of named'
+              ' stages": threads that share one upstream iterator (the previous'
+              ' stage) pull from it under a lock, whatever kind of iterator it is'
+              ' (R-C13-1) — its __next__ also updates that stage\'s aggregate',
+              c13.r1, min_instances=3)
+  ctx.include('R-C03-10', '"over any number of shards whose states are merged":'
+              ' every incoming (metric, slice) entry is merged into the result on'
+              ' every path (R-C16-5)', c16.r5, min_instances=1)
   ctx.include('R-C03-5', 'the sharded strategies (thread sub-shards, make(shard='
               '...)) run over shards rebuilt from recorded state and over'
               ' ranges of merged sequences: the rebuilt shard is the recorded'
